@@ -174,8 +174,9 @@ def main():
     if a.out: json.dump(doc, open(a.out, 'w'), indent=1, default=str)
     print('c16_wire: %d urls, %d wires, %d cookie scenarios, %d failures %s in %.1fs' % (stats['urls'], stats['wires'], stats['cookie-scenarios'], len(bad), dict(kinds), time.time() - t0))
     for k, d in bad[:15]: print('  FAIL[%s] %s' % (k, d[:300]))
+    if bad: return 1
     if stats['wires'] < 1000: print('  too few wires explored'); return 3
-    return 1 if bad else 0
+    return 0
 
 
 if __name__ == '__main__':
